@@ -19,17 +19,23 @@ CLAIMS = {
              'Verus contracts on the real conversion functions against an independent Gregorian calendar theory',
              'Date::day_of_week and derived Ord are assumed in the Verus unit; their Kani discharge is listed in evidence when built.'),
     'C02': V('The documented range of each of the six types is a Verus type invariant: Verus demands it at every constructor expression of every '
-             'extracted function and the safety precondition at every call of an unsafe *_unchecked constructor, for all inputs. '
-             'Float operations, parse and deserialisation are outside the Verus unit (see evidence.coverage.not_reached).',
+             'extracted function and the safety precondition at every call of an unsafe *_unchecked constructor, for all inputs - '
+             'including the f64 functions (mul_f64/div_f64, add_days/sub_days), whose IEEE operations are named wrappers with '
+             'uninterpreted specs so that the range gate after them is proved for all inputs. Parse and text deserialisation return '
+             'through the Verus-proved TryFrom<NaiveDateTime> (see evidence.coverage.not_reached).',
              'Verus type invariants on the six newtypes, checked at every constructor expression of the extracted code'),
     'C03': V('Verus generates and discharges an obligation for every + - * / % cast, index and unwrap in every extracted function '
-             '(all integer operations of the six types), for all arguments; the text/float half is not covered yet (evidence.coverage.not_reached).',
-             'Verus arithmetic-overflow / index / unwrap obligations on the extracted integer core'),
+             '(all integer operations of the six types, the integer side of the f64 functions), for all arguments; the text half is carried by '
+             'CBMC\'s built-in overflow / bounds / pointer checks in every lexer, scanner, formatter and parser obligation, the parser field loop '
+             'for pictures of any length (induction over the picture).',
+             'Verus arithmetic-overflow / index / unwrap obligations on the extracted code + CBMC built-in checks in the text obligations'),
     'C07': V('Unbounded proof: Timestamp::new/extract/date/time and the Time constructors/extract are proved against floor division by one day '
              'and the mixed-radix bijection for every value; accessor agreement, bijection and order laws are proved over the contracts.',
              'Verus contracts + laws over contracts'),
     'C08': V('Unbounded proof: every add_*/sub_* of Date/Timestamp/IntervalYM/IntervalDT equals exact integer arithmetic, Ok exactly when the '
-             'exact result is in range, with the error variant; inverse laws proved over the contracts. Timestamp::add_days(f64) not covered yet.',
+             'exact result is in range, with the error variant; inverse laws proved over the contracts. Timestamp::add_days/sub_days(f64): scaling, '
+             'rounding, classification, conversion, exact addition and range check proved over named IEEE operations (assumed functional); '
+             'what one IEEE operation returns is exercised by Kani on every double (range gate) and on offsets with exact products.',
              'Verus contracts (exact integer arithmetic, Ok iff in range) + inverse laws'),
     'C09': V('Unbounded proof for all dates x all intervals: add_interval_ym_internal implements floor-division month carry, fails exactly when '
              'the target month lacks the day or the year leaves 1..9999; wrappers on Date/Timestamp/OracleDate keep the time of day; '
@@ -45,7 +51,8 @@ CLAIMS = {
     'C13': V('Unbounded proof over every interval value and every u32 field tuple: constructors accept exactly the in-range tuples, '
              'extract/constructors mutually inverse, negation an involution, signed accessors agree.', 'Verus contracts + laws'),
     'C16': V('The whole-second invariant is the type invariant of oracle::Date; every constructor/conversion/interval op/trunc/round wrapper '
-             'is proved to floor or preserve whole seconds; float operations (add_days, sub_date) not covered yet.',
+             'is proved to floor or preserve whole seconds; add_days/sub_days/oracle_add_days/oracle_sub_days (nearest second, ties away from zero, '
+             'range error) and sub_date are proved over named IEEE operations.',
              'Verus type invariant (whole second, in range) + contracts'),
     'C17': V('Delegation contracts make Date/Timestamp/OracleDate agree by construction; agreement laws for every shared trunc/round unit, '
              'interval arithmetic, last_day_of_month and the 10 mixed comparison impls are proved over the contracts.',
@@ -66,30 +73,37 @@ CLAIMS.update({
              'field record per type with the helpers replaced by markers (which helper, applicability error, sign once, year/fraction/blanks '
              'rendered directly). Concatenation over multi-token pictures is bounded (thorough tier: two tokens).',
              'Verus contracts (value->record) + Kani full-domain harnesses (record->text, modular with helper markers)', K_NOTE),
-    'C05': V('record -> value (TryFrom<NaiveDateTime> x6, microsecond carry, exact errors) is proved in Verus for every field record; text -> record is '
-             'BOUNDED: scanner contracts on every input up to 8-12 bytes and parse_internal on every one-token picture with ASCII text <= 4 bytes and a '
-             'symbolic clock, against a reference written from the property. Multi-field pictures are not reached end to end '
-             '(argued by induction over the field list, not an obligation).',
-             'Verus contracts (record->value) + Kani scanner contracts and one-token parse against a reference (bounded)', K_NOTE),
+    'C05': V('record -> value (TryFrom<NaiveDateTime> x6, microsecond carry, exact errors) is proved in Verus for every field record; text -> record: '
+             'the parser field loop is proved for pictures of ANY length by induction over the picture (Kani obligations init / step / finish per type: '
+             'from any invariant-satisfying parser state, any token, any clock, the loop body and the code after the loop agree with a reference written '
+             'from the property; leaf scanners replaced by their contracts, unread-text window 12 bytes); the scanner contracts themselves are bounded in '
+             'the input length (8-12 bytes, which covers their maximum field widths).',
+             'Verus contracts (record->value) + Kani loop-invariant obligations on the real parse_internal (scanners by contract) + scanner contracts (bounded)', K_NOTE),
     'C06': V('The value <-> field-record halves of the round trip are proved in Verus for every value of the six types (laws law_c06_*); the text half '
-             '(format then parse of the same picture) is not reached end to end: it is covered per token by the C04 rendering and C05 one-token parse '
-             'obligations, which use the same reference semantics. Stated as such in evidence.coverage.not_reached.',
-             'Verus laws over contracts (value<->record inverse); text half via C04/C05 obligations', K_NOTE),
-    'C14': K('proof', 'Everything after the multiply/divide is proved for EVERY double (unit and zero operands make the product range over all doubles): '
-             'NaN -> invalid number, infinity -> numeric overflow, truncation toward zero, range gate. Symbolic x symbolic f64 products are beyond CBMC '
-             '(no answer in 20 min); the contract harnesses for them live in the thorough tier and are reported undecided when they time out.',
-             'Kani full-domain harnesses on the classification/truncation/range logic; operand-restricted harnesses for exactness', K_NOTE),
+             '(format then parse of the same picture) is composed from: every token reads back exactly what it rendered and consumes all of it '
+             '(Kani token_roundtrip_*, every value of every token), the renderer glue for any token (C04), the parser field loop for any picture '
+             '(C05 induction obligations) and the lexer window obligation. No single obligation executes a whole picture end to end.',
+             'Verus laws over contracts (value<->record inverse) + Kani per-token round trips and the C04/C05 loop obligations', K_NOTE),
+    'C14': K('proof', 'Structure for all inputs (Verus): mul_f64/div_f64 of IntervalYM, IntervalDT and Time convert the full count, apply ONE IEEE '
+             'multiply/divide by the operand, test infinity then NaN (division: zero divisor first), truncate by the saturating cast and range-gate, '
+             'with the error variant of each class - stated over named IEEE operations whose results are assumed (hardware). What the operations '
+             'return is exercised on the real functions for EVERY double (Kani: unit and zero operands make the product range over all doubles; '
+             'zero dividend for every divisor). Symbolic x symbolic f64 products are beyond CBMC; those obligations are stretch-tier.',
+             'Verus contracts over named IEEE operations + Kani full-domain harnesses on classification/truncation/range logic', K_NOTE),
     'C15': V('Compact form: for each of the six types, decoding EVERY raw i32/i64 is Ok exactly when in range (Oracle date: delegation to the Verus-proved '
              'checked constructor) and encoding writes exactly the raw count (Kani, full domain); value == raw count round trip is a Verus law. '
-             'Text form: the six layouts are not executed end to end (Kani cannot compile once_cell::Lazy); covered per token by C04/C05 and by the '
-             'Verus TryFrom<NaiveDateTime> contracts (any accepted text yields an in-range value).',
+             'Text form: the six layouts are not executed end to end (Kani cannot compile once_cell::Lazy); the renderer glue for any token runs '
+             'under this property, the parser loop obligations in the thorough tier, and the Verus contracts of TryFrom<NaiveDateTime> and of the '
+             'checked constructors guarantee that any accepted text yields an in-range value.',
              'Kani full-domain harnesses on the real Serialize/Deserialize impls (compact form) + Verus laws', K_NOTE),
     'C18': K('proof', 'With chrono::Local::now replaced by a symbolic clock built through chrono\'s own constructors: Date/Timestamp/OracleDate::now and '
              'TryFrom<Time> report the clock for every clock in years 1..9999 and fail outside (complete). Defaulting of missing fields, year completion '
-             'and clock independence are checked by the bounded one-token parse obligation (symbolic clock, text <= 4 bytes).',
-             'Kani with a stubbed symbolic clock; bounded one-token parse against a reference', K_NOTE),
-    'C19': K('model_checking', 'Bounded: FormatParser against a reference longest-match tokenizer written from the property, on EVERY byte string of length <= 5 '
-             '(quick) / 6 (thorough), first token of every 8-byte window, blank runs 1..600, the 36/37 token limit. No unbounded obligation exists for '
+             'and clock independence are part of the parser loop obligations (init / step / finish from any parser state, symbolic clock): year and month '
+             'are read from the clock exactly when the picture did not supply them, for pictures of any length.',
+             'Kani with a stubbed symbolic clock; loop-invariant obligations on parse_internal against a reference', K_NOTE),
+    'C19': K('model_checking', 'Bounded: FormatParser against a reference longest-match tokenizer written from the property, on EVERY byte string of length <= 4 '
+             '(quick) / 5 (thorough), first token of every 8-byte window (next() is a function of the unread suffix, the longest token has 5 bytes), '
+             'blank runs 1..=40 and 250..=262 (quick) / 1..=299 (thorough), the 36/37 token limit. No unbounded obligation exists for '
              'this property (the lexer is a loop over an input of arbitrary length).',
              'CBMC bounded model checking of the real lexer against a reference tokenizer (bounds stated)', K_NOTE),
 })
@@ -99,19 +113,19 @@ NOT_APPLICABLE = {}
 
 NOT_REACHED = {
     'C02': ['parse and text-form deserialisation end to end (every successful parse returns through the Verus-proved TryFrom<NaiveDateTime>, which yields in-range values only)',
-            'symbolic x symbolic f64 products in mul_f64/div_f64 (the range gate after the product is proved for every double)'],
-    'C03': ['inputs longer than the stated byte bounds for the lexer, scanners and one-token parse; multi-token pictures in parse',
+            'what an IEEE operation returns (the range gate after it is proved for every result)'],
+    'C03': ['unread text beyond the 12-byte window of the parser obligations, inputs longer than the stated byte bounds for the lexer and scanners',
             'allocation-failure paths (try_reserve) and core::fmt internals reached by interval day counts >= 1000',
             'LazyFormat / Display::to_string (std ToString panics on Err by design; the property speaks of the text sink)'],
-    'C04': ['pictures of more than two tokens end to end (concatenation is argued from the loop over fields)',
+    'C04': ['a whole multi-token picture end to end (Formatter::format carries no state between tokens: the per-token obligations compose)',
             'interval day counts >= 1000 (core::fmt)'],
-    'C05': ['pictures of more than one token end to end; text longer than 4 bytes through parse_internal',
-            'seven-to-nine digit fraction rounding runs only in the thorough tier'],
-    'C06': ['format-then-parse executed end to end on any picture (text half covered per token by C04/C05 obligations)'],
-    'C08': ['Timestamp::add_days for offsets whose product with 86 400 000 000 is inexact (the logic after the product is proved for every double)'],
-    'C14': ['symbolic x symbolic f64 multiply/divide (thorough-tier harnesses, expected to time out); the 2^-52 relative-error clause is IEEE-754\'s guarantee for one correctly rounded operation (assumed)'],
+    'C05': ['a whole picture end to end with the real scanners (composition of loop obligations and scanner contracts)',
+            'every 8-/9-digit fraction (quick: four prefixes x every tail; thorough: all 10^7..10^9 values)'],
+    'C06': ['format-then-parse executed end to end on any picture (composed from per-token round trips, renderer glue and parser loop obligations)'],
+    'C08': ['what IEEE multiply / round return for a given day count (assumed; exercised by Kani on every double for the range gate and on offsets with exact products)'],
+    'C14': ['what an IEEE multiply / divide / cast returns (assumed hardware; exercised by the Kani unit obligations); symbolic x symbolic f64 (stretch tier, does not finish)'],
     'C15': ['the text form end to end (once_cell::Lazy cannot be compiled by Kani); serde dispatch glue'],
-    'C16': ['sub_date (f64 quotient) and add_days offsets with inexact products: thorough tier only'],
-    'C18': ['chrono::Local::now itself; pictures of more than one token; text longer than 4 bytes'],
-    'C19': ['pictures longer than 6 bytes (5 in the quick tier) except blank runs up to 600; 36/37 token limit on one concrete picture family'],
+    'C16': ['what the IEEE operations inside add_days / sub_date return (assumed; offsets with exact products in the thorough tier)'],
+    'C18': ['chrono::Local::now itself'],
+    'C19': ['pictures longer than 5 bytes (4 in the quick tier) except through the 8-byte first-token window and blank runs up to 299 (600 stretch); 36/37 token limit on one concrete picture family'],
 }
